@@ -624,3 +624,411 @@ theorem mDel_dig_lists {s : State} (hK : RK T r s) (hN : Names T) (arg : String)
       · rw [h3 S hS, h, respList_storeResp_self hK hN _ hsb _ hTl]
 end
 end Upd
+
+namespace Upd
+section
+variable {T : Desc → Prop} {r : String}
+
+/-! ### the response table under pushes and deletes in any repository -/
+
+def RespsGrow (s s' : State) : Prop := ∀ n l, s.resp n = some l → s'.resp n = some l
+
+theorem RespsGrow.of_eq {s s' : State} (h : s'.resps = s.resps) : RespsGrow s s' := by
+  intro n l hl; unfold State.resp at hl ⊢; rw [h]; exact hl
+theorem RespsGrow.trans {s1 s2 s3 : State} (h1 : RespsGrow s1 s2) (h2 : RespsGrow s2 s3) : RespsGrow s1 s3 :=
+  fun n l h => h2 n l (h1 n l h)
+theorem TableOK.of_eq {s s' : State} (h : s'.resps = s.resps) (ht : TableOK T s) : TableOK T s' := by
+  intro n l hl; apply ht n l; unfold State.resp at hl ⊢; rw [← h]; exact hl
+
+theorem tg_storeResp {s : State} (ht : TableOK T s) (r0 S : String) (ds : List Desc) (hT : ∀ d ∈ ds, T d) :
+    TableOK T (storeResp s r0 S ds) ∧ RespsGrow s (storeResp s r0 S ds) :=
+  ⟨table_storeResp ht r0 S ds hT, fun n l h => storeResp_resp_mono s r0 S ds n l h⟩
+
+theorem tg_mCommit {s : State} (ht : TableOK T s) (r0 b : String) (a : Accepted) (hT : T a.refd) :
+    TableOK T (mCommit s r0 b a).1 ∧ RespsGrow s (mCommit s r0 b a).1 := by
+  rw [mCommit_state]
+  have h2 : (indexInsert (putContent s r0 a.d b) r0
+      { mt := a.mt, dig := a.d.str, size := a.len, ann := if a.tag = "" then {} else { isNil := false, tag := a.tag } } a.children).resps
+      = s.resps := by rw [indexInsert_resps, putContent_resps]
+  have ht2 := TableOK.of_eq h2 ht
+  have hg2 := RespsGrow.of_eq h2
+  generalize indexInsert (putContent s r0 a.d b) r0 _ a.children = s2 at h2 ht2 hg2 ⊢
+  split
+  · rw [referrerAdd_eq]
+    have hTl : ∀ x ∈ addTo (respList s2 r0 a.subject) a.refd, T x := by
+      intro x hx
+      rcases mem_addTo _ _ _ hx with h | h
+      · exact respList_tok ht2 r0 a.subject x h
+      · rw [h]; exact hT
+    obtain ⟨h3, h4⟩ := tg_storeResp ht2 r0 a.subject _ hTl
+    exact ⟨h3, hg2.trans h4⟩
+  · exact ⟨ht2, hg2⟩
+
+theorem delStage_cases (s : State) (r0 arg : String) (desc : Desc) :
+    delStage s r0 arg desc = s ∨ ∃ S, delStage s r0 arg desc = referrerDelete s r0 S desc := by
+  unfold delStage
+  by_cases h0 : (!s.conf.ref) = true ∨ isTag arg = true
+  · rw [if_pos h0]; exact Or.inl rfl
+  · rw [if_neg h0]
+    cases DigArg.parse desc.dig with
+    | bad => exact Or.inl rfl
+    | ok dg =>
+      simp only []
+      cases (s.repo r0).blob dg with
+      | none => exact Or.inl rfl
+      | some c =>
+        show (if subjOf (s.body c) = "" then s else referrerDelete s r0 (subjOf (s.body c)) desc) = s ∨
+          ∃ S, (if subjOf (s.body c) = "" then s else referrerDelete s r0 (subjOf (s.body c)) desc) = referrerDelete s r0 S desc
+        by_cases hs : subjOf (s.body c) = ""
+        · rw [if_pos hs]; exact Or.inl rfl
+        · rw [if_neg hs]; exact Or.inr ⟨_, rfl⟩
+
+theorem indexRemove_resps (s : State) (r0 : String) (d : Desc) : (indexRemove s r0 d).resps = s.resps := by
+  rw [indexRemove_eq, withIndex_resps]
+
+theorem tg_mDel {s : State} (ht : TableOK T s) (r0 arg : String) :
+    TableOK T (mDel s r0 arg).1 ∧ RespsGrow s (mDel s r0 arg).1 := by
+  rw [mDel_eq]
+  have h0 : (s.setRepo (s.repo r0)).resps = s.resps := resps_setRepo _ _
+  have ht0 := TableOK.of_eq h0 ht
+  have hg0 := RespsGrow.of_eq h0
+  generalize s.setRepo (s.repo r0) = s0 at h0 ht0 hg0 ⊢
+  split
+  · exact ⟨ht0, hg0⟩
+  · rename_i desc _
+    simp only []
+    have key : TableOK T (delStage s0 r0 arg desc) ∧ RespsGrow s0 (delStage s0 r0 arg desc) := by
+      rcases delStage_cases s0 r0 arg desc with h | ⟨S, h⟩
+      · rw [h]; exact ⟨ht0, fun _ _ h => h⟩
+      · rw [h, referrerDelete_eq]
+        split
+        · exact ⟨ht0, fun _ _ h => h⟩
+        · exact tg_storeResp ht0 r0 S _ (fun x hx => respList_tok ht0 r0 S x (mem_rmFrom _ _ x hx))
+    exact ⟨TableOK.of_eq (indexRemove_resps _ _ _) key.1,
+      hg0.trans (key.2.trans (RespsGrow.of_eq (indexRemove_resps _ _ _)))⟩
+
+theorem tg_mPut {s : State} (ht : TableOK T s) (r0 ref ct qd b : String) (lk : Bool)
+    (hadm : ∀ a, mValidate (s.setRepo (s.repo r0)) r0 ref ct qd b lk = .ok a → T a.refd) :
+    TableOK T (mPut s r0 ref ct qd b lk).1 ∧ RespsGrow s (mPut s r0 ref ct qd b lk).1 := by
+  unfold mPut
+  simp only []
+  have h0 : (s.setRepo (s.repo r0)).resps = s.resps := resps_setRepo _ _
+  cases hv : mValidate (s.setRepo (s.repo r0)) r0 ref ct qd b lk with
+  | error e => exact ⟨TableOK.of_eq h0 ht, RespsGrow.of_eq h0⟩
+  | ok a =>
+    obtain ⟨h1, h2⟩ := tg_mCommit (TableOK.of_eq h0 ht) r0 b a (hadm a hv)
+    exact ⟨h1, (RespsGrow.of_eq h0).trans h2⟩
+
+/-! ### dispatch -/
+
+theorem step_mPut_shape (s : State) (r0 ref ct qd b : String) (lk : Bool) :
+    ((step s (.mPut r0 ref ct qd b lk)).1 = s ∧ (step s (.mPut r0 ref ct qd b lk)).2.status ≠ 201) ∨
+    step s (.mPut r0 ref ct qd b lk) = mPut s r0 ref ct qd b lk := by
+  simp only [step]
+  repeat' split
+  all_goals first
+    | (right; rfl)
+    | (left; exact ⟨rfl, by simp [notFound, notAllowed, denied, nameInvalid]⟩)
+
+theorem step_mDel_shape (s : State) (r0 arg : String) :
+    ((step s (.mDel r0 arg)).1 = s ∧ (step s (.mDel r0 arg)).2.status ≠ 202) ∨
+    step s (.mDel r0 arg) = mDel s r0 arg := by
+  simp only [step]
+  repeat' split
+  all_goals first
+    | (right; rfl)
+    | (left; exact ⟨rfl, by simp [notFound, notAllowed, denied, nameInvalid]⟩)
+
+/-- requests that are neither manifest pushes, manifest deletes nor blob deletes -/
+def Req.isQuiet : Req → Bool
+  | .mPut .. | .mDel .. | .bDel .. => false
+  | _ => true
+
+theorem quiet_step (r : String) (s : State) (q : Req) (hq : q.isQuiet = true) : Quiet r s (step s q).1 := by
+  cases q with
+  | uPost r0 q => simp only [step]; repeat' split
+                  all_goals first | exact Quiet.refl _ s | exact quiet_uPost _ _ _ _
+  | uPatch r0 i q => simp only [step]; repeat' split
+                     all_goals first | exact Quiet.refl _ s | exact quiet_uPatch _ _ _ _ _
+  | uPut r0 i q => simp only [step]; repeat' split
+                   all_goals first | exact Quiet.refl _ s | exact quiet_uPut _ _ _ _ _
+  | uGet r0 i => simp only [step]; repeat' split
+                 all_goals first | exact Quiet.refl _ s | exact quiet_uGet _ _ _ _
+  | uDel r0 i => simp only [step]; repeat' split
+                 all_goals first | exact Quiet.refl _ s | exact quiet_uDel _ _ _ _
+  | bGet r0 a hd rng => simp only [step]; repeat' split
+                        all_goals first | exact Quiet.refl _ s | exact quiet_bGet _ _ _ _ _ _
+  | bDel r0 a => cases hq
+  | mPut r0 ref ct qd b lk => cases hq
+  | mGet r0 ref acc hd rng => simp only [step]; repeat' split
+                              all_goals first | exact Quiet.refl _ s | exact quiet_mGet _ _ _ _ _ _ _
+  | mDel r0 ref => cases hq
+  | tags r0 n l => simp only [step]; repeat' split
+                   all_goals first | exact Quiet.refl _ s | exact quiet_tags _ _ _ _ _
+  | refs r0 a f c p => simp only [step]; repeat' split
+                       all_goals first | exact Quiet.refl _ s | exact quiet_refs _ _ _ _ _ _ _
+
+theorem quiet_step_bDel_other (r : String) (s : State) (r0 arg : String) (h : r ≠ r0) : Quiet r s (step s (.bDel r0 arg)).1 := by
+  simp only [step]; repeat' split
+  all_goals first | exact Quiet.refl _ s | exact quiet_bDel_other _ _ _ _ h
+end
+end Upd
+
+namespace Upd
+section
+variable {T : Desc → Prop} {r : String}
+
+/-! ### the specification and the list-level invariant -/
+
+/-- subject ↦ digest ↦ "should be listed" -/
+abbrev Spec := String → String → Prop
+
+/-- how an exchange with the server changes what should be listed in repository `r`: a push acknowledged with 201
+    and an `OCI-Subject` header adds the pushed digest to that subject; a delete by digest acknowledged with 202
+    removes the digest from every subject; nothing else changes anything -/
+def specStep (r : String) (G : Spec) : Req → Resp → Spec
+  | .mPut r0 _ _ _ _ _, resp =>
+    if r0 = r ∧ resp.status = 201 ∧ resp.subj ≠ "" then fun S g => G S g ∨ (S = resp.subj ∧ g = resp.dcd) else G
+  | .mDel r0 ref, resp =>
+    if r0 = r ∧ resp.status = 202 ∧ isTag ref = false then
+      match DigArg.parse ref with
+      | .ok d => fun S g => G S g ∧ g ≠ d.str
+      | .bad => G
+    else G
+  | _, _ => G
+
+structure RJ (r : String) (s : State) (G : Spec) : Prop where
+  nodup : ∀ S, S ≠ "" → ((respList s r S).map (·.dig)).Nodup
+  sound : ∀ S, S ≠ "" → ∀ x ∈ respList s r S, subjRead s r x.dig = S
+  spec : ∀ S, S ≠ "" → ∀ g, g ∈ (respList s r S).map (·.dig) ↔ G S g
+
+theorem body_of_defs {s s' : State} (h : s'.defs = s.defs) (c : String) : s'.body c = s.body c := by
+  unfold State.body; rw [h]
+
+/-- the subject read for a manifest does not change while its blob stays and its body stays defined -/
+theorem subjRead_stable {s s' : State} (hcas : RepoCAS (s.repo r)) (hcas' : RepoCAS (s'.repo r))
+    (hblob : ∀ g, ((s.repo r).blob g).isSome → ((s'.repo r).blob g).isSome)
+    (hbody : ∀ c, subjOf (s.body c) ≠ "" → s'.body c = s.body c)
+    (g S : String) (hS : S ≠ "") (h : subjRead s r g = S) : subjRead s' r g = S := by
+  unfold subjRead at h ⊢
+  cases hp : DigArg.parse g with
+  | bad => rw [hp] at h; exact absurd h.symm hS
+  | ok dg =>
+    rw [hp] at h
+    simp only [] at h ⊢
+    cases hb : (s.repo r).blob dg with
+    | none => rw [hb] at h; exact absurd h.symm hS
+    | some c =>
+      rw [hb] at h
+      simp only [] at h
+      have hc : dg.content = c := cas_blob _ hcas dg c hb
+      have hb' := blob_some_of_isSome _ hcas' dg (hblob dg (by rw [hb]; rfl))
+      rw [hb', hc]
+      simp only []
+      rw [hbody c (by rw [h]; exact hS)]
+      exact h
+
+theorem RJ.same {s s' : State} {G : Spec} (hJ : RJ r s G) (hcas : RepoCAS (s.repo r)) (hcas' : RepoCAS (s'.repo r))
+    (hblob : ∀ g, ((s.repo r).blob g).isSome → ((s'.repo r).blob g).isSome)
+    (hbody : ∀ c, subjOf (s.body c) ≠ "" → s'.body c = s.body c)
+    (hl : ∀ S, S ≠ "" → respList s' r S = respList s r S) : RJ r s' G := by
+  refine ⟨fun S hS => by rw [hl S hS]; exact hJ.nodup S hS, fun S hS x hx => ?_, fun S hS g => by rw [hl S hS]; exact hJ.spec S hS g⟩
+  rw [hl S hS] at hx
+  exact subjRead_stable hcas hcas' hblob hbody _ S hS (hJ.sound S hS x hx)
+
+/-- a step that leaves index, blobs and tables of `r` alone keeps everything -/
+theorem keep_all {s s' : State} {G : Spec} (hK : RK T r s) (hJ : RJ r s G) (hN : Names T) (hinv : Inv s')
+    (hconf : s'.conf = s.conf) (hdefs : s'.defs = s.defs)
+    (hidx : (s'.repo r).index = (s.repo r).index)
+    (hblob : ∀ g, ((s.repo r).blob g).isSome → ((s'.repo r).blob g).isSome)
+    (htable : TableOK T s') (hgrow : RespsGrow s s') : RK T r s' ∧ RJ r s' G := by
+  have hK' : RK T r s' := hK.transfer s' hinv hconf htable (by rw [hidx]; exact SubSame.refl _) hblob hgrow
+  refine ⟨hK', hJ.same hK.cas hK'.cas hblob (fun c _ => body_of_defs hdefs c) ?_⟩
+  intro S hS
+  exact respList_transfer hK hN s' S hS (fun e _ _ => by rw [hidx]) hblob hgrow hK'.cas
+
+theorem keep_quiet {s s' : State} {G : Spec} (hK : RK T r s) (hJ : RJ r s G) (hN : Names T) (hinv : Inv s')
+    (hq : Quiet r s s') : RK T r s' ∧ RJ r s' G :=
+  keep_all hK hJ hN hinv hq.conf hq.defs hq.index hq.blob (TableOK.of_eq hq.resps hK.table) (RespsGrow.of_eq hq.resps)
+
+theorem mem_addTo_dig (old : List Desc) (d : Desc) (g : String) :
+    g ∈ (addTo old d).map (·.dig) ↔ g ∈ old.map (·.dig) ∨ g = d.dig := by
+  unfold addTo
+  split
+  · rename_i h
+    constructor
+    · exact Or.inl
+    · intro h'
+      rcases h' with h' | h'
+      · exact h'
+      · obtain ⟨x, hx, hxd⟩ := List.any_eq_true.mp h
+        rw [h']
+        exact List.mem_map.mpr ⟨x, hx, by simpa using hxd⟩
+  · simp [eq_comm]
+
+theorem mem_rmFrom_dig (old : List Desc) (g0 : String) (hg0 : g0 ≠ "") (g : String) :
+    g ∈ (rmFrom old g0).map (·.dig) ↔ g ∈ old.map (·.dig) ∧ g ≠ g0 := by
+  have hp := (rmFrom_perm old g0 hg0).map (·.dig)
+  rw [hp.mem_iff]
+  simp only [List.mem_map, List.mem_filter, decide_eq_true_eq]
+  constructor
+  · rintro ⟨x, ⟨hx, hne⟩, rfl⟩
+    exact ⟨⟨x, hx, rfl⟩, hne⟩
+  · rintro ⟨⟨x, hx, rfl⟩, hne⟩
+    exact ⟨x, ⟨hx, hne⟩, rfl⟩
+
+theorem rmFrom_nodup (old : List Desc) (g0 : String) (hg0 : g0 ≠ "") (h : (old.map (·.dig)).Nodup) :
+    ((rmFrom old g0).map (·.dig)).Nodup := by
+  have hp := (rmFrom_perm old g0 hg0).map (·.dig)
+  rw [hp.nodup_iff]
+  exact h.sublist ((List.filter_sublist).map _)
+end
+end Upd
+
+namespace Upd
+section
+variable {T : Desc → Prop} {r : String}
+
+theorem touch_keeps {s : State} {G : Spec} (hK : RK T r s) (hJ : RJ r s G) (hN : Names T) :
+    RK T r (s.setRepo (s.repo r)) ∧ RJ r (s.setRepo (s.repo r)) G :=
+  keep_quiet hK hJ hN (setRepo_inv s _ hK.inv (repo_ok s r hK.inv)) (quiet_touch r s r)
+
+/-- a manifest push into `r` -/
+theorem mPut_r {s : State} {G : Spec} (hK : RK T r s) (hJ : RJ r s G) (hN : Names T) (ref ct qd b : String) (lk : Bool)
+    (hadm : ∀ a, mValidate (s.setRepo (s.repo r)) r ref ct qd b lk = .ok a → T a.refd ∧ DigRT a.d) :
+    RK T r (mPut s r ref ct qd b lk).1 ∧
+    RJ r (mPut s r ref ct qd b lk).1 (specStep r G (.mPut r ref ct qd b lk) (mPut s r ref ct qd b lk).2) := by
+  obtain ⟨hK0, hJ0⟩ := touch_keeps hK hJ hN
+  unfold mPut
+  simp only []
+  generalize s.setRepo (s.repo r) = s0 at hK0 hJ0 hadm ⊢
+  cases hv : mValidate s0 r ref ct qd b lk with
+  | error e =>
+    simp only [specStep]
+    have hne : ¬ (r = r ∧ e.status = 201 ∧ e.subj ≠ "") := by
+      intro ⟨_, h, _⟩
+      rcases mValidate_refusal_4xx s0 r ref ct qd b lk e hv with h4 | h4 <;> rw [h4] at h <;> cases h
+    rw [if_neg hne]
+    exact ⟨hK0, hJ0⟩
+  | ok a =>
+    simp only []
+    obtain ⟨hT, hrt⟩ := hadm a hv
+    have hd := mValidate_digest s0 r ref ct qd b lk a hv
+    obtain ⟨hrefd, hsubj⟩ := mValidate_facts s0 r ref ct qd b lk a hv
+    rw [hK0.ref] at hsubj
+    simp only [if_true] at hsubj
+    obtain ⟨hK', hm, hb, hl0, hl1⟩ := mCommit_lists hK0 hN b a hd hT
+    have hresp : (mCommit s0 r b a).2 = { status := 201, loc := manLoc r a.d, dcd := a.d.str, subj := a.subject } := rfl
+    rw [hresp]
+    simp only [specStep]
+    generalize (mCommit s0 r b a).1 = s' at hK' hm hb hl0 hl1 ⊢
+    refine ⟨hK', ?_⟩
+    have hbody : ∀ c, subjOf (s0.body c) ≠ "" → s'.body c = s0.body c := fun c _ => body_of_defs hm.defs c
+    by_cases hsub : a.subject = ""
+    · have hne : ¬ (r = r ∧ (201 : Nat) = 201 ∧ a.subject ≠ "") := fun h => h.2.2 hsub
+      rw [if_neg hne]
+      exact hJ0.same hK0.cas hK'.cas hm.blob hbody (hl0 hsub)
+    · rw [if_pos ⟨rfl, rfl, hsub⟩]
+      obtain ⟨hself, hother⟩ := hl1 hsub
+      refine ⟨fun S hS => ?_, fun S hS x hx => ?_, fun S hS g => ?_⟩
+      · by_cases hSS : S = a.subject
+        · rw [hSS, hself]; exact addTo_nodup _ _ (hJ0.nodup _ hsub)
+        · rw [hother S hS hSS]; exact hJ0.nodup S hS
+      · by_cases hSS : S = a.subject
+        · rw [hSS, hself] at hx
+          rcases mem_addTo _ _ _ hx with h | h
+          · rw [hSS]
+            exact subjRead_stable hK0.cas hK'.cas hm.blob hbody _ _ hsub (hJ0.sound _ hsub x h)
+          · -- the pushed manifest itself: its digest parses back, its blob is there, its body names the subject
+            rw [h, hrefd, hSS]
+            unfold subjRead
+            rw [hrt]
+            simp only []
+            rw [blob_some_of_isSome _ hK'.cas a.d hb, hd]
+            simp only []
+            rw [body_of_defs hm.defs b]
+            exact hsubj.symm
+        · rw [hother S hS hSS] at hx
+          exact subjRead_stable hK0.cas hK'.cas hm.blob hbody _ S hS (hJ0.sound S hS x hx)
+      · by_cases hSS : S = a.subject
+        · rw [hSS, hself, mem_addTo_dig, hJ0.spec _ hsub g, hrefd]
+          simp
+        · rw [hother S hS hSS, hJ0.spec S hS g]
+          simp [hSS]
+
+theorem mDel_none (s : State) (r arg : String) (h : getDesc ((s.setRepo (s.repo r)).repo r).index arg = none) :
+    mDel s r arg = (s.setRepo (s.repo r), { status := 404, code := "MANIFEST_UNKNOWN" }) := by
+  rw [mDel_eq, h]
+theorem mDel_some (s : State) (r arg : String) (desc : Desc)
+    (h : getDesc ((s.setRepo (s.repo r)).repo r).index arg = some desc) :
+    mDel s r arg = (indexRemove (delStage (s.setRepo (s.repo r)) r arg desc) r desc, { status := 202 }) := by
+  rw [mDel_eq, h]
+
+/-- a manifest delete in `r` -/
+theorem mDel_r {s : State} {G : Spec} (hK : RK T r s) (hJ : RJ r s G) (hN : Names T) (arg : String)
+    (hadm : isTag arg = false → ∀ d, DigArg.parse arg = .ok d → ∀ ds, d.str ≠ (respDig ds).str) :
+    RK T r (mDel s r arg).1 ∧ RJ r (mDel s r arg).1 (specStep r G (.mDel r arg) (mDel s r arg).2) := by
+  obtain ⟨hK0, hJ0⟩ := touch_keeps hK hJ hN
+  cases hg : getDesc ((s.setRepo (s.repo r)).repo r).index arg with
+  | none =>
+    rw [mDel_none s r arg hg]
+    simp only [specStep]
+    have hne : ¬ (r = r ∧ (404 : Nat) = 202 ∧ isTag arg = false) := by intro ⟨_, h, _⟩; cases h
+    rw [if_neg hne]
+    exact ⟨hK0, hJ0⟩
+  | some desc =>
+    rw [mDel_some s r arg desc hg]
+    simp only [specStep]
+    generalize s.setRepo (s.repo r) = s0 at hK0 hJ0 hg ⊢
+    cases ht : isTag arg with
+    | true =>
+      have hne : ¬ (r = r ∧ (202 : Nat) = 202 ∧ true = false) := by intro ⟨_, _, h⟩; cases h
+      rw [if_neg hne]
+      obtain ⟨hK', hm, hl⟩ := mDel_tag_lists hK0 hN arg desc ht hg
+      exact ⟨hK', hJ0.same hK0.cas hK'.cas hm.blob (fun c _ => body_of_defs hm.defs c) hl⟩
+    | false =>
+      rw [if_pos ⟨rfl, rfl, rfl⟩]
+      obtain ⟨d, hp, hdesc, hnil⟩ := getDesc_dig _ _ _ ht hg
+      rw [hp]
+      simp only []
+      have hfree : ∀ ds, desc.dig ≠ (respDig ds).str := by
+        intro ds; rw [hdesc]; exact hadm ht d hp ds
+      obtain ⟨hK', hm, hl⟩ := mDel_dig_lists hK0 hN arg desc ht hnil hfree
+      generalize indexRemove (delStage s0 r arg desc) r desc = s' at hK' hm hl ⊢
+      rw [hdesc] at hl
+      have hg0 : d.str ≠ "" := Dig.str_ne_empty d
+      have hbody : ∀ c, subjOf (s0.body c) ≠ "" → s'.body c = s0.body c := fun c _ => body_of_defs hm.defs c
+      -- the deleted digest is listed at most under the subject its body names
+      have honly : ∀ S, S ≠ "" → S ≠ subjRead s0 r d.str → d.str ∉ (respList s0 r S).map (·.dig) := by
+        intro S hS hne hmem
+        obtain ⟨x, hx, hxd⟩ := List.mem_map.mp hmem
+        have := hJ0.sound S hS x hx
+        rw [hxd] at this
+        exact hne this.symm
+      refine ⟨hK', fun S hS => ?_, fun S hS x hx => ?_, fun S hS g => ?_⟩
+      · by_cases hSS : S = subjRead s0 r d.str
+        · rcases (hl S hS).2 hSS with h | ⟨h, _⟩
+          · rw [h]; exact rmFrom_nodup _ _ hg0 (hJ0.nodup S hS)
+          · rw [h]; exact hJ0.nodup S hS
+        · rw [(hl S hS).1 hSS]; exact hJ0.nodup S hS
+      · have hx0 : x ∈ respList s0 r S := by
+          by_cases hSS : S = subjRead s0 r d.str
+          · rcases (hl S hS).2 hSS with h | ⟨h, _⟩
+            · rw [h] at hx; exact mem_rmFrom _ _ x hx
+            · rw [h] at hx; exact hx
+          · rw [(hl S hS).1 hSS] at hx; exact hx
+        exact subjRead_stable hK0.cas hK'.cas hm.blob hbody _ S hS (hJ0.sound S hS x hx0)
+      · by_cases hSS : S = subjRead s0 r d.str
+        · rcases (hl S hS).2 hSS with h | ⟨h, hnil'⟩
+          · rw [h, mem_rmFrom_dig _ _ hg0, hJ0.spec S hS g]
+          · rw [h, ← hJ0.spec S hS g, hnil']
+            simp
+        · rw [(hl S hS).1 hSS, ← hJ0.spec S hS g]
+          constructor
+          · intro h
+            refine ⟨h, ?_⟩
+            intro hgd; rw [hgd] at h
+            exact honly S hS hSS h
+          · exact fun h => h.1
+end
+end Upd
